@@ -1,6 +1,7 @@
 package main
 
 import (
+	"net/netip"
 	"bytes"
 	"encoding/binary"
 	"encoding/hex"
@@ -519,8 +520,13 @@ func (f *fz) judgeSCMPError(s *rfix.Star, v starVariant, raw []byte, h *rfix.Hdr
 		viol("C09:not-addressed-to-source", fmt.Sprintf("destination of the SCMP message (%x, type %d/%d, %x) is not the offending packet's source (%x, type %d/%d, %x)",
 			oh.DstIA, oh.DT, oh.DL, oh.DstHost, h.SrcIA, h.ST, h.SL, h.SrcHost))
 	}
-	local := rfix.SiblingAddr(0).Addr().As4()
-	if oh.SrcIA != uint64(s.Cfg.IA) || oh.ST != 0 || oh.SL != 0 || !bytes.Equal(oh.SrcHost, local[:]) {
+	localAP := rfix.SiblingAddr(0)
+	if s.Cfg.InternalAddr != "" {
+		localAP = netip.MustParseAddrPort(s.Cfg.InternalAddr)
+	}
+	local := localAP.Addr().AsSlice()
+	wantSL := uint8(len(local)/4 - 1)
+	if oh.SrcIA != uint64(s.Cfg.IA) || oh.ST != 0 || oh.SL != wantSL || !bytes.Equal(oh.SrcHost, local) {
 		viol("C09:not-from-router", fmt.Sprintf("source of the SCMP message (%x, type %d/%d, %x) is not the local ISD-AS %x and router address %x", oh.SrcIA, oh.ST, oh.SL, oh.SrcHost, uint64(s.Cfg.IA), local))
 	}
 	// (5) checksum
@@ -682,6 +688,8 @@ var c09Variants = []starVariant{
 	{Idx: 4, Reuse: true, Auth: false, BFD: true},
 	{Idx: 5, Reuse: false, Auth: true, BFD: true},
 	{Idx: 6, Reuse: true, Auth: false, SvcChurn: true},
+	{Idx: 7, Reuse: true, Auth: false, V6Internal: true},
+	{Idx: 8, Reuse: false, Auth: true, V6Internal: true},
 }
 
 func checkC09(r *mon.Run) {
